@@ -74,6 +74,9 @@ func c13Status(s *sc) {
 		time.Sleep(50 * time.Millisecond)
 	}
 	tInhVisible := time.Now()
+	// judge a list fetched AFTER the inhibitor is known to have the source: within the list fetched above, alerts
+	// evaluated before the source arrived at the inhibitor may legitimately lack inhibitedBy
+	full = get("")
 	fpSrc := full["src"].Fingerprint
 	type want struct {
 		state    string
